@@ -14,6 +14,8 @@ PLAN.json (all optional):
   fixpoint     : {spec, opts}  after main(): enumerate every proposal on the
                         result of strategy_hierarchical.reduce and evaluate it
   stop_after_accepts : n  raise KeyboardInterrupt after n accepted steps
+  interrupt_after_accept : n  (hierarchical) raise KeyboardInterrupt when the first result after the
+                        n-th acceptance is processed in the main process
   stop_on_repeat : bool  stop (KeyboardInterrupt) when an output content repeats
   max_accepts  : n      stop when more than n contents were written
 Result: DIR/after.json
@@ -49,7 +51,7 @@ def main():
     from vlib import model, refreader, spec as vspec
 
     main_pid = os.getpid()
-    state = dict(accepts=0, write_events=0, writes=0, result=None, writes_log=[], writes_by=[], writes_text=[])
+    state = dict(accepts=0, write_events=0, writes=0, result=None, writes_log=[], writes_by=[], writes_text=[], accepted_log=[])
 
     def digest(exprs):
         """digest of the content *with* comments (erasing a comment is a
@@ -189,7 +191,32 @@ def main():
     def dump_diff(description, before, after_):
         d_ = description.replace('(global) ', '')
         state['current_mutator'] = descr.get(d_, descr.get(d_.split(' (')[0], d_))
+        # this is the moment strategy hierarchical accepts a candidate
+        try:
+            state['accepted_log'].append(digest(after_))
+        except Exception:  # noqa
+            state['accepted_log'].append(None)
+        if plan.get('interrupt_after_accept') == len(state['accepted_log']):
+            state['armed'] = True
         return orig_dump(description, before, after_)
+
+    # interrupt while the first result *after* the n-th acceptance is processed:
+    # by then the accepted input must be in the output file
+    if plan.get('interrupt_after_accept'):
+        real_pickle = strategy_hierarchical.pickle
+
+        class PickleShim:
+            dumps = staticmethod(real_pickle.dumps)
+
+            @staticmethod
+            def loads(data):
+                if state.get('armed') and os.getpid() == main_pid:
+                    state['armed'] = False
+                    state['interrupted_after_accept'] = len(state['accepted_log'])
+                    raise KeyboardInterrupt()
+                return real_pickle.loads(data)
+
+        strategy_hierarchical.pickle = PickleShim
 
     debug_utils.dump_diff = dump_diff
     tg_init0 = strategy_ddmin.TaskGenerator.__init__
@@ -273,7 +300,8 @@ def main():
         sys.stderr.write(err)
         rc = 70
     after = dict(rc=rc, err=err, wall=time.time() - t0, writes=state['writes'],
-                 writes_log=state['writes_log'], writes_by=state['writes_by'],
+                 writes_log=state['writes_log'], writes_by=state['writes_by'], accepted_log=state['accepted_log'],
+                 interrupted_after_accept=state.get('interrupted_after_accept'),
                  write_events=state['write_events'], accepts=state['accepts'],
                  interrupted_in_write=state.get('interrupted_in_write'),
                  stopped=state.get('stopped', False), repeat=state.get('repeat'),
